@@ -315,6 +315,8 @@ def f_sched(rng, sid):
         ln = gen.rand_line(rng, sc)
         if rng.random() < 0.2 and ln[:1] in (b"A", b"a"):
             ln = ln[:1] + b"\r" + ln[1:]
+        if rng.random() < 0.4 and ln.endswith(b"\n") and not ln.endswith(b"\r\n"):
+            ln = ln[:-1] + b"\r\n"
         total += ln
     sc.meta["input"] = total
     sc.op("hq " + ",".join(rng.choice(["3", "0", "-1", "1", "2", "3", "0/e:x6162", "7"]) for _ in range(8)) + ",3,3,3,3,3,3,3,3")
@@ -327,11 +329,19 @@ def f_sched(rng, sid):
         sc.inp(total[pos:pos + k])
         pos += k
         for _ in range(rng.randint(2, 6) if bytewise else rng.randint(0, 25)):
-            sc.op("svc %d %d" % (rng.random() < 0.7, rng.random() < 0.7))
+            sc.op("svc %d %s" % (rng.random() < 0.7, _wpat(rng, 0.7)))
     for _ in range(rng.randint(0, 60)):
-        sc.op("svc %d %d" % (rng.random() < 0.5, rng.random() < 0.5))
+        sc.op("svc %d %s" % (rng.random() < 0.5, _wpat(rng, 0.5)))
     drain(sc, 6000)
     return sc
+
+
+def _wpat(rng, p):
+    """answer(s) of io->write in one service call: usually one digit; sometimes a per-attempt pattern, so
+    that code making several write attempts in one call meets a refusal between two accepted bytes"""
+    if rng.random() < 0.25:
+        return rng.choice(["10", "01", "110", "101", "011", "100"])
+    return "1" if rng.random() < p else "0"
 
 
 def _evcmds(rng, sc):
@@ -379,6 +389,8 @@ def f_hold(rng, sid):
     sc.group()
     _evcmds(rng, sc)
     kind = rng.choice([b"AT+X\n", b"AT+X?\n", b"AT+X=1\n", b"AT+X=?\n"])
+    if rng.random() < 0.5:
+        kind = kind[:-1] + b"\r\n"          # the held line's own line ending must come back after release
     for rep in range(rng.randint(1, 3)):
         if rng.random() < 0.3:
             sc.op("hexit %d" % rng.choice([0, 1]))       # spurious, before
@@ -531,7 +543,7 @@ def f_fit(rng, sid):
             if t in (0, 1) and rng.random() < 0.5:
                 init = rng.choice([b"\x00", b"\x09", b"\x0a", b"\x63", b"\x64", b"\xff", b"\x80", b"\x7f"]) + bytes(size)
         init = init[:size]
-        vs.append((t, size, init, rng.choice([0, 0, 0, 1, 2]), None if rng.random() < 0.4 else bytes(rng.choice(b"abcxyz") for _ in range(rng.randint(1, 3)))))
+        vs.append((t, size, init, rng.choice([0, 0, 0, 1, 2]), None if rng.random() < 0.4 else bytes(rng.choice(b"abcxyz_") for _ in range(rng.choice([1, 2, 3, 3, 18, 19, 20, 24, 31, 40])))))
     name = b"+F" + bytes(rng.choice(gen.ALPHA) for _ in range(rng.randint(0, 4)))
     desc = None if rng.random() < 0.5 else bytes(rng.choice(b"abc def") for _ in range(rng.randint(0, 8)))
     kind = rng.choice(["read", "read", "test", "list"])
@@ -641,7 +653,7 @@ PLAN = {
     "C17": [("mutex", 60, 600), ("evt", 40, 400)],
     "C18": [("mixed", 60, 700), ("evt", 50, 500), ("hold", 30, 300), ("sched", 20, 200)],
     "C19": [("list", 120, 1500), ("fit", 100, 1200), ("lines", 30, 300)],
-    "C20": [("lines", 100, 1200), ("cap", 30, 300), ("mixed", 20, 200)],
+    "C20": [("lines", 100, 1200), ("cap", 30, 300), ("mixed", 20, 200), ("hold", 30, 300)],
 }
 
 ASSUMPTIONS = {}
